@@ -131,6 +131,10 @@ class Exec:
                 return EnumV(0)
             return EnumV(1, [Cell(v)])
 
+        def ptr_is_null(I, a, path, callee):
+            v = a[0]
+            return z3.BoolVal(isinstance(v, tuple) and v[0] == "null")
+
         def q_push(I, a, path, callee):
             q = a[0].cell.v
             yield ("atomic", "queue.push")
@@ -171,6 +175,7 @@ class Exec:
         return [
             (r"^Atomic::<.*>::", atomic),
             (r"NonNull::<.*>::as_ref", nn_as_ref), (r"<impl \*mut Shared>::as_ref", ptr_as_ref),
+            (r"<impl \*mut Shared>::is_null", ptr_is_null),
             (r"ArrayQueue::<TaskId>::push$", q_push), (r"ArrayQueue::<TaskId>::pop$", q_pop),
             (r"Result::<\(\), TaskId>::is_err$", is_err),
             (r"TaskQueue::make_hot$", make_hot),
